@@ -99,6 +99,11 @@ def parse_twitter_url(url):
     if parsed.fragment.startswith("!"):
         path = re.sub(TWITTER_FRAGMENT_ROUTING_RE, "", parsed.fragment)
 
+        # NOTE: routing can be nested ("#!#!/user"), unwinding it here rather
+        # than by recursing once per level
+        while path.startswith("#!"):
+            path = re.sub(TWITTER_FRAGMENT_ROUTING_RE, "", path[1:])
+
         return parse_twitter_url("twitter.com/" + path)
 
     return None
